@@ -15,7 +15,7 @@ Print Assumptions C14_visible_iff.
 Theorem C14_get_global_spec : forall ms name asking,
   match get_global ms name asking with
   | GOk v => exists mn, visible_in ms name asking = [(mn, v)]
-  | GAmbiguous l => (2 <= List.length (visible_in ms name asking))%nat /\ l = map fst (visible_in ms name asking)
+  | GAmbiguous l => (2 <= List.length (visible_in ms name asking))%nat /\ l = sort_texts (map fst (visible_in ms name asking))
   | GNotFound => visible_in ms name asking = []
   end.
 Proof. exact get_global_spec. Qed.
@@ -27,13 +27,7 @@ Proof. exact visible_in_spec. Qed.
 Print Assumptions C14_visible_in_spec.
 
 (* every order in which the modules were loaded / every hash order gives the same outcome *)
-Theorem C14_order_irrelevant : forall ms ms' name asking, Permutation ms ms' ->
-  match get_global ms name asking, get_global ms' name asking with
-  | GOk v, GOk v' => v = v'
-  | GAmbiguous l, GAmbiguous l' => Permutation l l'
-  | GNotFound, GNotFound => True
-  | _, _ => False
-  end.
+Theorem C14_order_irrelevant : forall ms ms' name asking, Permutation ms ms' -> get_global ms name asking = get_global ms' name asking.
 Proof. exact get_global_perm. Qed.
 Print Assumptions C14_order_irrelevant.
 
